@@ -7,8 +7,9 @@
   Values are abstract here: a default / prefault argument is characterised by whether it
   satisfies the schema's own checks (`valid`), because that is all the nil outcome depends on.
   Two further schema features matter because today's code consults them on the nil path:
-  * an *overwrite* check (`Trim`, `Overwrite(f)`): `processModifiersCore` then runs **all** checks
-    on the default value (modifiers.go:55-58);
+  * an *overwrite* check (`Trim`, `Overwrite(f)`): `processModifiersCore` still hands the default value to the
+    overwrite checks — and, since 4f7c1d7, to them only (modifiers.go:53-61; before, ALL checks ran on it:
+    `legacyNilOutcome`);
   * *refine* checks: for Optional/Nilable schemas `filterNilChecks` runs overwrite/refine/custom
     checks on the nil value (modifiers.go:80-85); whether a refine wrapper accepts nil is fixed
     when it is attached (string: the receiver's type was already `*string`; integer/float/bool:
@@ -78,10 +79,8 @@ inductive Outcome where
     `admitsNil`: the type code is `unknown` (modifiers.go:89). -/
 def nilOutcome (admitsNil : Bool) (i : I) : Outcome :=
   match i.dv, i.df with
-  | some valid, _ =>                                   -- resolveDefault: DefaultValue first
-    if i.hasOverwrite && !valid then .checkError else .dflt false
-  | none, some valid =>
-    if i.hasOverwrite && !valid then .checkError else .dflt true
+  | some _, _ => .dflt false                          -- resolveDefault: DefaultValue first; no validating check runs on it
+  | none, some _ => .dflt true
   | none, none =>
     match i.pv, i.pf with
     | some valid, _ => if valid then .prefaultOk false else .checkError
@@ -92,6 +91,19 @@ def nilOutcome (admitsNil : Bool) (i : I) : Outcome :=
         (if i.refines.all id then .nil else .refineError)   -- filterNilChecks: refinements run on nil
       else if admitsNil then .nil
       else .typeError
+
+/-- The default branch before 4f7c1d7: with an overwrite check attached ALL checks ran on the default value, so a
+    default that does not satisfy them was an error (kept for the witness `c03_legacy_witness_default_checked`). -/
+def legacyNilOutcome (admitsNil : Bool) (i : I) : Outcome :=
+  match i.dv, i.df with
+  | some valid, _ => if i.hasOverwrite && !valid then .checkError else .dflt false
+  | none, some valid => if i.hasOverwrite && !valid then .checkError else .dflt true
+  | none, none => nilOutcome admitsNil i
+
+/-- Does a check callback of the schema run on the nil path although a default is set? Today: the overwrite checks do
+    (`if ow := overwriteChecks(internals.Checks); len(ow) > 0 { ApplyChecks(v, ow, ctx) }`, modifiers.go:56-59) — pinned by
+    TestComplex_Overwrite / TestStringBool_Overwrite "default value interaction". -/
+def overwriteRunsOnDefault (i : I) : Bool := (i.dv.isSome || i.df.isSome) && i.hasOverwrite
 
 /-! ### The documented meaning, computed from the history alone -/
 
@@ -334,8 +346,8 @@ inductive PM where
 def processModifiersCtx (c : Ctx) (s : Sch) (inp : In) : Ctx × PM :=
   if !inp.isNil then (c, .notHandled) else
   match s.i.dv, s.i.df with
-  | some valid, _ => (c, .handled (if s.i.hasOverwrite && !valid then .err .checkError else .ok (.src (.dflt false))))
-  | none, some valid => (c, .handled (if s.i.hasOverwrite && !valid then .err .checkError else .ok (.src (.dflt true))))
+  | some _, _ => (c, .handled (.ok (.src (.dflt false))))
+  | none, some _ => (c, .handled (.ok (.src (.dflt true))))
   | none, none =>
     match s.i.pv, s.i.pf with
     | some valid, _ => (c, .prefault false valid)
@@ -394,18 +406,20 @@ def specStep (admitsNil : Bool) (h : List Op) (inp : In) (r : R) : Bool :=
   configuration. `Cfg` is that configuration (any type), `validate` the type's value parser (any function of the
   configuration and the input): the frame statement is about the modifier methods and the nil pass, whatever the parser. -/
 
-/-- Rows of the harness table by what their modifier methods do with the type's own configuration
-    (tied to the code by the regenerated table `Gen.C03Tables.cfgDrops`, `c03_cfg_drops_as_modelled`). -/
+/-- Rows of the harness table by what their modifier methods did with the type's own configuration before
+    66ed2d6 / ef151cb (kept so that the regenerated table `Gen.C03Tables.cfgDrops` is compared row by row). -/
 inductive Kind where
   | plain      -- every modifier method carries every configuration field
-  | record     -- `ZodRecord.NonOptional` rebuilds the internals with `Def` and `ValueType` only (types/record.go:169-181)
-  | structp    -- `ZodStruct.NonOptional` rebuilds them with `Def` and `Shape` only (types/struct.go:233-246)
+  | record     -- before 66ed2d6 `ZodRecord.NonOptional` rebuilt the internals with `Def` and `ValueType` only
+  | structp    -- before ef151cb `ZodStruct.NonOptional` rebuilt them with `Def` and `Shape` only
   deriving DecidableEq, Repr
 
 /-- Does the method for `op` on a schema of this kind rebuild the type's internals WITHOUT its configuration?
-    (The code as it is; `pending/C03-record-nonoptional-config`, `pending/C03-struct-nonoptional-partial` make it
-    `false` everywhere.) -/
-def dropsCfg : Kind → Op → Bool
+    The code as it is: never (tied to the code by `c03_cfg_drops_as_modelled` over the regenerated table). -/
+def dropsCfg : Kind → Op → Bool := fun _ _ => false
+
+/-- The table before the two fixes (for the witnesses `c03_legacy_frame_witness_*`). -/
+def legacyDropsCfg : Kind → Op → Bool
   | .record, .nonOptional => true
   | .structp, .nonOptional => true
   | _, _ => false
@@ -418,11 +432,11 @@ structure SchC (Cfg : Type) where
 
 /-- A modifier method: the embedded internals as `apply`, the configuration copied field by field — or left at its
     zero value where the method's composite literal omits it. -/
-def applyC {Cfg : Type} (k : Kind) (rule : RefineRule) (zero : Cfg) (s : SchC Cfg) (op : Op) : SchC Cfg :=
-  { s with cfg := if dropsCfg k op then zero else s.cfg, i := apply rule s.i op }
+def applyC {Cfg : Type} (drops : Kind → Op → Bool) (k : Kind) (rule : RefineRule) (zero : Cfg) (s : SchC Cfg) (op : Op) : SchC Cfg :=
+  { s with cfg := if drops k op then zero else s.cfg, i := apply rule s.i op }
 
-def applyAllC {Cfg : Type} (k : Kind) (rule : RefineRule) (zero : Cfg) (s : SchC Cfg) (h : List Op) : SchC Cfg :=
-  h.foldl (applyC k rule zero) s
+def applyAllC {Cfg : Type} (drops : Kind → Op → Bool) (k : Kind) (rule : RefineRule) (zero : Cfg) (s : SchC Cfg) (h : List Op) : SchC Cfg :=
+  h.foldl (applyC drops k rule zero) s
 
 /-- Result of a parse with the value parser's answer kept. -/
 inductive RX (Y : Type) where
